@@ -61,7 +61,8 @@ func c22Scenario() *explore.Scenario {
 			proto := []string{"h2", "http/1.1", ""}[x.Choose("alpn", 3)]
 			cp := []uint16{17513, 17613}[x.Choose("codepoint", 2)]
 			srvSettings := settingsMenu[x.Choose("server-settings", 3)]
-			cliMode := x.Choose("client-settings", 3) // 0 has the selected proto, 1 lacks it, 2 nil map
+			cliMode := x.Choose("client-settings", 3)      // 0 has the selected proto, 1 lacks it, 2 nil map
+			alpsFirst := x.Choose("alps-position", 2) == 1 // the server lists ALPS before / after ALPN
 			// the hooked server can read the client's EncryptedExtensions only when it requests a client
 			// certificate (otherwise it rolls its transcript forward past the predicted client Finished
 			// while sending its own flight), so ALPS negotiation always runs with RequestClientCert
@@ -113,17 +114,24 @@ func c22Scenario() *explore.Scenario {
 			hk := &connHooks{WantEE: vers == tls.VersionTLS13 && proto != ""}
 			hk.Out = func(n int, t uint8, d []byte) []byte {
 				if vers == tls.VersionTLS13 && t == 8 {
+					if alpsFirst {
+						return editEEFront(d, cp, srvSettings)
+					}
 					return editEE(d, cp, srvSettings)
 				}
 				if vers == tls.VersionTLS12 && t == 2 {
 					if sp, ok := parseServerHello(d); ok {
-						sp.exts = append(sp.exts, shExt{cp, srvSettings})
+						if alpsFirst {
+							sp.exts = append([]shExt{{cp, srvSettings}}, sp.exts...)
+						} else {
+							sp.exts = append(sp.exts, shExt{cp, srvSettings})
+						}
 						return sp.build()
 					}
 				}
 				return d
 			}
-			what := fmt.Sprintf("%s vers=%04x alpn=%q codepoint=%d server-settings=%dB client-settings-mode=%d clientauth=%v", g.Name, vers, proto, cp, len(srvSettings), cliMode, clientAuth)
+			what := fmt.Sprintf("%s vers=%04x alpn=%q codepoint=%d server-settings=%dB client-settings-mode=%d clientauth=%v alps-first=%v", g.Name, vers, proto, cp, len(srvSettings), cliMode, clientAuth, alpsFirst)
 			var cleanup func()
 			hs := peer.Run(ccfg, g.ID, scfg, peer.Opts{Prepare: g.prepare(), Echo: true,
 				OnConns: func(u *tls.UConn, s *tls.Conn) { cleanup = installHooks(s, hk) }})
@@ -208,7 +216,7 @@ func c22Scenarios(thorough bool) []*explore.Scenario { return []*explore.Scenari
 func init() {
 	register(&Prop{ID: "C22", Level: "exploration", Variant: "A", Scenarios: c22Scenarios,
 		Run: func(c *explore.Check, thorough bool) {
-			c.Rule = "every parrot carrying an ALPS extension + custom specs with the old, the new and both codepoints x version {1.3, 1.2} x ALPN selected {h2, http/1.1, none} x offered server codepoint {17513, 17613} x server settings {empty, 1 B, 300 B} x Config.ApplicationSettings {has the protocol, lacks it, nil} x server {no client auth, RequestClientCert}: the server (verif hooks) adds ALPS to EncryptedExtensions / ServerHello and reads the client's EncryptedExtensions into its transcript; TLS 1.3 + ALPN => handshake completes (server Finished check passed), PeerApplicationSettings == server bytes, one client EncryptedExtensions with the negotiated codepoint and the configured settings; no ALPN => client error; TLS 1.2 => settings never exposed. distinct = case"
+			c.Rule = "every parrot carrying an ALPS extension + custom specs with the old, the new and both codepoints x version {1.3, 1.2} x ALPN selected {h2, http/1.1, none} x offered server codepoint {17513, 17613} x server settings {empty, 1 B, 300 B} x ALPS listed {after, before} ALPN in the server's message x Config.ApplicationSettings {has the protocol, lacks it, nil} x server {no client auth, RequestClientCert}: the server (verif hooks) adds ALPS to EncryptedExtensions / ServerHello and reads the client's EncryptedExtensions into its transcript; TLS 1.3 + ALPN => handshake completes (server Finished check passed), PeerApplicationSettings == server bytes, one client EncryptedExtensions with the negotiated codepoint and the configured settings; no ALPN => client error; TLS 1.2 => settings never exposed. distinct = case"
 			c.Assumptions = []string{"'rejects under TLS < 1.3' is read as 'does not accept': an error or silently ignoring both satisfy the oracle", "a server codepoint the hello did not offer is outside this property"}
 			runAll(c, c22Scenarios(thorough), 0)
 			c.Gate(c.Total.Counters["alps_negotiated"] > 100, "non-vacuity: %d negotiated ALPS handshakes", c.Total.Counters["alps_negotiated"])
